@@ -442,6 +442,11 @@ def main(harness, tier, seed, jobs=None):
         print(ln, flush=True)
 
     cases = H.cases(tier)
+    flt = os.environ.get("PVX_FILTER")       # debugging aid only: restricts the cases (evidence says so)
+    if flt:
+        for kv in flt.split(","):
+            k, v = kv.split("=")
+            cases = [c for c in cases if str(c.get(k)) == v]
     rng = np.random.default_rng(seed)
     order = rng.permutation(len(cases))
     tasks = []
@@ -576,6 +581,7 @@ def main(harness, tier, seed, jobs=None):
         "problems": problems[:20],
         "per_case": sorted(agg["per_case"], key=lambda d: -(d["wall_s"] or 0))[:40],
         "jobs": jobs,
+        "case_filter": os.environ.get("PVX_FILTER"),
     }
     evidence = {"property_id": prop, "tier": tier, "seed": int(seed), "level": "model_checking",
                 "coverage": coverage, "assumptions": getattr(H, "ASSUMPTIONS", []),
